@@ -50,12 +50,16 @@ def build_coq():
         r = run(["timeout", "3000", "make", "-j16"], cwd=COQ)
         return r.returncode == 0, r.stdout
 
-def build_harness():
-    """Build the implementation driver from /repo's current working tree, hooks on."""
+def build_harness(race=False):
+    """Build the implementation driver from /repo's current working tree, hooks on.
+    race=True builds a second binary with the Go race detector (C12)."""
     with Lock(".go.lock"):
         shutil.copyfile("/repo/go.sum", os.path.join(HARNESS, "go.sum"))
         r = run(["go", "build", "-tags", "verif", "-o", os.path.join(BUILD, "impl"), "."],
                 cwd=HARNESS, env=GOENV, timeout=900)
+        if r.returncode == 0 and race:
+            r = run(["go", "build", "-race", "-tags", "verif", "-o", os.path.join(BUILD, "impl-race"), "."],
+                    cwd=HARNESS, env=GOENV, timeout=1800)
         return r.returncode == 0, r.stdout
 
 GREP_GATE = re.compile(r"\b(Admitted|admit|Axiom|Parameter|Conjecture|Unset Guard|bypass_check)\b|type-in-type|impredicative-set")
@@ -99,7 +103,8 @@ def run_impl(prop, seed, tier, outdir, timeout):
     if os.path.isdir(outdir):
         shutil.rmtree(outdir)
     os.makedirs(outdir)
-    r = run([os.path.join(BUILD, "impl"), "-prop", prop, "-seed", str(seed), "-tier", tier, "-out", outdir],
+    binary = "impl-race" if PROPS.PROPS[prop].get("race") else "impl"
+    r = run([os.path.join(BUILD, binary), "-prop", prop, "-seed", str(seed), "-tier", tier, "-out", outdir],
             cwd=HARNESS, env=GOENV, timeout=timeout)
     if r.returncode != 0:
         return None, r.stdout
@@ -179,7 +184,7 @@ def check(prop, tier, seed, replay_of=None):
         if not gate["ok"]:
             violations.append(("proof-gate", {"what": "proof obligations of Props/%s.v are not all discharged" % prop,
                                               "theorems": gate["theorems"], "detail": gate}, True))
-    ok, out = build_harness()
+    ok, out = build_harness(race=bool(meta.get("race")))
     if not ok:
         # the tree under /repo does not compile with the harness: nothing can be run
         print(out[-3000:])
